@@ -116,6 +116,10 @@ pub const C07_SIGMA: [&str; 6] = ["a", " ", "\"", "\\", "-", "é"];
 /// characters whose encodings contain the bytes 0x85 / 0xA0 (white space in Latin-1) and a 3-byte blank
 pub const C07_SIGMA2: [&str; 7] = ["a", " ", "\"", "à", "\u{85}", "\u{3000}", "\u{a0}"];
 
+/// ASCII characters a tokeniser could be tempted to treat specially although the rules do not: tab, single
+/// quote, `=`, `#`, and `n` (so that backslash-n, backslash-a occur next to backslash-quote)
+pub const C07_SIGMA3: [&str; 9] = ["a", " ", "\"", "\\", "\t", "'", "=", "#", "n"];
+
 pub fn c07_lines(sigma: &'static [&'static str], max_len: u32) -> EnumOutcome {
     let t0 = Instant::now();
     let total = count_strings(sigma.len() as u64, max_len);
